@@ -424,7 +424,8 @@ fn check_raw_suffix_domains(r: &mut Report) {
 /// direct host resolution: a host under base domain d resolves to (d, bucket-label)
 fn check_host_resolution(r: &mut Report, g: &mut Rng, n: u64) {
     use s3s::host::{MultiDomain, S3Host, SingleDomain};
-    let pool = ["example.com", "s3.example.org", "localhost:9000", "storage.internal", "a-b.c-d.net:8080"];
+    // (two of them written with capitals, as an operator may write them; the host then uses the same spelling)
+    let pool = ["example.com", "s3.example.org", "localhost:9000", "storage.internal", "a-b.c-d.net:8080", "S3.MiXed-Case.net", "UPPER.ORG:9000"];
     for _ in 0..n {
         let k = 1 + g.usize_below(4);
         let mut ds: Vec<&str> = pool.to_vec();
@@ -529,7 +530,7 @@ fn gen_bucket(g: &mut Rng) -> String {
 }
 
 fn gen_host_cfg(g: &mut Rng) -> (HostCfg, String) {
-    let pool = ["example.com", "s3.example.org", "localhost:9000", "storage.internal"];
+    let pool = ["example.com", "s3.example.org", "localhost:9000", "storage.internal", "S3.MiXed-Case.net"];
     match g.below(4) {
         0 => (HostCfg::None, String::new()),
         1 => {
